@@ -308,6 +308,19 @@ def run(repo: Repo, rep: Report, tier: str) -> None:
         ok = "op.left" in lo and "op.right" not in lo and "op.right" in ro and "op.left" not in ro and opr in ("op.op", "op.test_op")
         rep.check(ok, "C01-R4", f"{mname}: left_operand from op.left, right_operand from op.right, operation from the node", f"{lo} / {ro} / {opr}", m.loc(c[0]))
     em = repo.cls("PlanEntityEmitter")
+    # an operand without a recorded wire selection reads both colours: the planner records a selection only where it determined one, so the
+    # configurators' fallback must not narrow the operand to one colour
+    n_def = 0
+    for fn in ("_configure_decider", "_configure_arithmetic"):
+        for c in calls_in(em.methods[fn].node, "get"):
+            if len(c.args) == 2 and isinstance(c.args[0], ast.Constant) and isinstance(c.args[0].value, str) and c.args[0].value.endswith("_operand_wires"):
+                n_def += 1
+                d_ = c.args[1]
+                vals = {e.value for e in d_.elts if isinstance(e, ast.Constant)} if isinstance(d_, (ast.Set, ast.List, ast.Tuple)) else None
+                okd = vals == {"red", "green"}
+                rep.check(okd, "C01-R4", f"{fn}: '{c.args[0].value}' defaults to both colours", "{'red', 'green'}" if okd else
+                          f"default {norm(d_)}: an operand whose colour the planner did not record is cut off from the other colour and reads 0 there", em.methods[fn].loc(c))
+    rep.floor("C01-R4", "operand wire-selection defaults in the configurators", n_def, 4)
     from ..sides import mirrored_stores
     for fn in ("_configure_decider", "_configure_arithmetic"):
         mirrored, mproblems = mirrored_stores(repo, em.methods[fn])
